@@ -48,6 +48,9 @@ for sid in sorted(os.listdir(os.path.join(V, 'seeded'))):
     m = json.load(open(os.path.join(V, 'seeded', sid, 'meta.json')))
     out.append('| %s | %s | %s | %s | %s |' % (sid, m['property'], m['needs_to_manifest'].replace('|', '/'), ', '.join(m.get('detected_by') or []) or '(check not run)',
                                            ', '.join(m.get('missed_by') or []) or '-'))
+out.append('\n### 12.7 What is proved and how, per property (generated from MANIFEST.json)\n')
+for c in man['checks']:
+    out.append('* **%s** — %s  *Technique:* %s.  *Level note:* %s\n' % (c['property_id'], c['level_claimed']['text'], c['technique'], c['level_note'].split('Trusted:')[-1].split('generated inputs and by regenerated tables checked by decide.')[-1].strip() or '-'))
 txt = '\n'.join(out) + '\n'
 p = os.path.join(V, 'DESIGN.md')
 s = open(p).read()
